@@ -58,6 +58,10 @@ def main():
             gen = cpp._generate_ekf_function_bodies("x/generated/formak/model.h", "generated", model, dict(pn), {a: dict(b) for a, b in sm.items()}, {a: dict(b) for a, b in sn.items()}, dict(cm), cfg)
             header = "\n".join(cpp.header_from_ast(generator=gen))
             source = "\n".join(cpp.source_from_ast(generator=gen))
+            # the same definition generated a SECOND time in this process (module-level state must not leak into the text)
+            genb = cpp._generate_ekf_function_bodies("x/generated/formak/model.h", "generated", model, dict(pn), {a: dict(b) for a, b in sm.items()}, {a: dict(b) for a, b in sn.items()}, dict(cm), cfg)
+            header_b = "\n".join(cpp.header_from_ast(generator=genb))
+            source_b = "\n".join(cpp.source_from_ast(generator=genb))
             gen2 = cpp._generate_model_function_bodies("x/generated/formak/model.h", "generated", model, dict(cm), cfg)
             header2 = "\n".join(cpp.header_from_ast(generator=gen2))
             source2 = "\n".join(cpp.source_from_ast(generator=gen2))
@@ -67,6 +71,8 @@ def main():
         os.chdir(old)
     out["header_sha256"] = hashlib.sha256(header.encode()).hexdigest()
     out["source_sha256"] = hashlib.sha256(source.encode()).hexdigest()
+    out["regenerated_header_sha256"] = hashlib.sha256(header_b.encode()).hexdigest()
+    out["regenerated_source_sha256"] = hashlib.sha256(source_b.encode()).hexdigest()
     out["model_header_sha256"] = hashlib.sha256(header2.encode()).hexdigest()
     out["model_source_sha256"] = hashlib.sha256(source2.encode()).hexdigest()
     names = lambda xs: [str(x) for x in xs]
